@@ -296,6 +296,46 @@ def F17():
     return par != seq, f"z of the parallel grid: {sorted({p[2] for p in par}) if isinstance(par, list) else par}, whole: {sorted({p[2] for p in seq})}"
 
 
+def F9():
+    """C07: meshio mesh with two blocks of one cell type through from_meshio"""
+    import meshio
+    from fieldcompare.mesh import meshio_utils, CellTypes
+    pts = np.array([[0, 0], [1, 0], [2, 0], [0, 1], [1, 1], [2, 1]], dtype=float)
+    with warnings.catch_warnings():
+        warnings.simplefilter("ignore")
+        mm = meshio.Mesh(pts, [("quad", np.array([[0, 1, 4, 3]])), ("quad", np.array([[1, 2, 5, 4]]))],
+                         cell_data={"c": [np.array([1.0]), np.array([2.0])]})
+        f = meshio_utils.from_meshio(mm)
+    conn = np.asarray(f.domain.connectivity(CellTypes.quad)).tolist()
+    vals = [np.asarray(fl.values).tolist() for fl in f.cell_fields]
+    ok = sorted(map(tuple, conn)) == [(0, 1, 4, 3), (1, 2, 5, 4)] and vals == [[1.0, 2.0]]
+    return (not ok), f"quads read: {conn}, cell values: {vals} (expected both quads with values [1.0, 2.0])"
+
+
+_VTI_OFFSET = """<?xml version="1.0"?>
+<VTKFile type="ImageData" version="1.0" byte_order="LittleEndian" header_type="UInt64">
+<ImageData WholeExtent="1 2 0 0 0 0" Origin="0 0 0" Spacing="1 1 1">
+<Piece Extent="1 2 0 0 0 0">
+<PointData><DataArray type="Float64" Name="p" format="ascii">10 20</DataArray></PointData>
+<CellData></CellData>
+</Piece></ImageData></VTKFile>
+"""
+
+
+def F20():
+    """C07: image data whose extent does not start at 0 (VTK: point index i sits at Origin + i*Spacing)"""
+    from fieldcompare.io import read_field_data
+    d = tempfile.mkdtemp(prefix="fcv_w_")
+    p = os.path.join(d, "g.vti")
+    try:
+        with open(p, "w") as fh:
+            fh.write(_VTI_OFFSET)
+        xs = np.asarray(read_field_data(p).domain.points)[:, 0].tolist()
+        return xs != [1.0, 2.0], f"x coordinates read: {xs} (VTK semantics: [1.0, 2.0])"
+    finally:
+        os.remove(p); os.rmdir(d)
+
+
 ALL = {n: f for n, f in globals().items() if n.startswith("F") and n[1:].isdigit() and callable(f)}
 
 if __name__ == "__main__":
